@@ -367,6 +367,20 @@ fn subset_head(head: &Head, loca_format: u8) -> Vec<u8> {
     out
 }
 
+#[cfg(googlefonts_fontations_verif)]
+pub(crate) mod verif {
+    use super::*;
+    pub(crate) fn subset_glyph(glyph: &Glyph, plan: &Plan) -> Vec<u8> {
+        super::subset_glyph(glyph, plan)
+    }
+    pub(crate) fn trim_simple_glyph_padding(glyph_data: &[u8], num_coords: u16) -> usize {
+        super::trim_simple_glyph_padding(glyph_data, num_coords)
+    }
+    pub(crate) fn padded_size(len: usize) -> usize {
+        super::padded_size(len)
+    }
+}
+
 #[cfg(test)]
 mod test {
     use super::*;
